@@ -26,6 +26,7 @@ type p1Case struct {
 	DC       bool          `json:"dc,omitempty"`
 	Extra    []string      `json:"extra,omitempty"`
 	DiskTwin bool          `json:"disktwin,omitempty"` // additionally run the same directory through the exported API on a real directory
+	Dec      *decProtoCase `json:"dec,omitempty"`      // C04: operation sequences (with interrupted Repairs and failing loads) on ONE PAR1 Decoder object, see decproto.go
 }
 
 func applyP1(s *scen.P1Set, c *p1Case, seed int64) *envfs.FS {
@@ -212,6 +213,18 @@ func runP1(c *p1Case, r *core.Rec, cl p1Clauses) {
 }
 
 func c04Gen(g *core.Gen) {
+	// the round trip through a Decoder object that lives on: interrupted Repairs, failing loads, retries, and damage /
+	// restore events in between (an error path that leaves something behind shows on the next call)
+	decDepth := 5
+	if g.Thorough() {
+		decDepth = 6
+	}
+	decProtoGen("p1", decDepth, false, func(d *decProtoCase) {
+		if d.Fault {
+			d.Depth = decDepth // decProtoGen gives the fault alphabet one step less
+		}
+		g.Emit(&p1Case{Dec: d})
+	})
 	sizesSet := []int{0, 1, 2, 5, 9}
 	maxFiles := 3
 	if g.Thorough() {
@@ -360,6 +373,10 @@ func init() {
 		NewCase:     func() interface{} { return &p1Case{} },
 		Gen:         c04Gen,
 		Run: func(ci interface{}, r *core.Rec) {
+			if c := ci.(*p1Case); c.Dec != nil {
+				decProtoRun(c.Dec, r, func(d *decProtoCase) interface{} { return &p1Case{Dec: d} })
+				return
+			}
 			runP1(ci.(*p1Case), r, p1Clauses{RoundTrip: true})
 		},
 	})
